@@ -95,6 +95,7 @@ type C15ExtCase struct {
 	M2           int  `json:"mask2"` // advertised by the second EHLO (after Reset)
 	Opts         int  `json:"opts"`  // bit mask of option fields set
 	Second       bool `json:"second"`
+	EmptyAuth    bool `json:"empty_auth,omitempty"` // MailOptions.Auth points to the empty string (AUTH=<>)
 }
 
 var mailParamExt = map[string]string{"BODY": "8BITMIME", "SIZE": "SIZE", "REQUIRETLS": "REQUIRETLS", "SMTPUTF8": "SMTPUTF8", "RET": "DSN", "ENVID": "DSN", "AUTH": "AUTH PLAIN",
@@ -116,6 +117,9 @@ func evalC15Ext(c C15ExtCase) *h.Finding {
 	var f *h.Finding
 	desc := fmt.Sprintf("first EHLO advertises %s, second %s, option fields %06b, judged after the %s EHLO", maskNames(c.M1), maskNames(c.M2), c.Opts, map[bool]string{false: "first", true: "second"}[c.Second])
 	auth := "id@auth.example"
+	if c.EmptyAuth {
+		auth = ""
+	}
 	mo := &smtp.MailOptions{}
 	if c.Opts&1 != 0 {
 		mo.Size = 1234
@@ -394,7 +398,7 @@ func C15(tier string) int {
 		strLen = 5
 	}
 	alpha := []byte{'\r', '\n', 0, ' ', '<', '>', 'a'}
-	run.Rule = fmt.Sprintf("(a) ALL 2^7 subsets of advertised extensions %v x ALL 2^6 subsets of MailOptions fields (and 2^3 of RcptOptions) against a scripted server, judged after the first EHLO and after a second EHLO (Reset) that advertises a different subset (complement and shifted subsets), and against a server that refuses EHLO so that the client falls back to HELO (before or after a normal EHLO); (b) ALL strings of <=%d octets over {CR,LF,NUL,SP,'<','>','a'} in every string-typed argument (Hello, Verify, Mail from, Rcpt to, EnvelopeID, Auth, ORCPT rfc822/utf-8, SASL mechanism name). Octets written by each call are taken from the raw connection log. Distinct by construction; non-trivial = a parameter is requested that is not offered / the string contains CR, LF or NUL. Oracle: <=1 CRLF-terminated line per call and no bare CR/LF; CR/LF in an argument => local error, zero octets; every parameter on the wire is in the most recent EHLO reply; REQUIRETLS/SMTPUTF8 requested but not offered => local error.", c15Exts, strLen)
+	run.Rule = fmt.Sprintf("(a) ALL 2^7 subsets of advertised extensions %v x ALL 2^6 subsets of MailOptions fields (Auth as an identity and as the empty string) (and 2^3 of RcptOptions) against a scripted server, judged after the first EHLO and after a second EHLO (Reset) that advertises a different subset (complement and shifted subsets), and against a server that refuses EHLO so that the client falls back to HELO (before or after a normal EHLO); (b) ALL strings of <=%d octets over {CR,LF,NUL,SP,'<','>','a'} in every string-typed argument (Hello, Verify, Mail from, Rcpt to, EnvelopeID, Auth, ORCPT rfc822/utf-8, SASL mechanism name). Octets written by each call are taken from the raw connection log. Distinct by construction; non-trivial = a parameter is requested that is not offered / the string contains CR, LF or NUL. Oracle: <=1 CRLF-terminated line per call and no bare CR/LF; CR/LF in an argument => local error, zero octets; every parameter on the wire is in the most recent EHLO reply; REQUIRETLS/SMTPUTF8 requested but not offered => local error.", c15Exts, strLen)
 	var ecases []C15ExtCase
 	for m1 := 0; m1 < 128; m1++ {
 		for opts := 0; opts < 64; opts++ {
@@ -406,6 +410,12 @@ func C15(tier string) int {
 	// a server that refuses EHLO (HELO fallback): nothing is negotiated, first or second time round
 	for opts := 0; opts < 64; opts++ {
 		ecases = append(ecases, C15ExtCase{M1: -1, M2: -1, Opts: opts}, C15ExtCase{M1: 127, M2: -1, Opts: opts, Second: true}, C15ExtCase{M1: -1, M2: 127, Opts: opts, Second: true})
+	}
+	for _, c := range append([]C15ExtCase(nil), ecases...) {
+		if c.Opts&32 != 0 {
+			c.EmptyAuth = true
+			ecases = append(ecases, c)
+		}
 	}
 	h.ParallelFor(len(ecases), func(i int) {
 		c := ecases[i]
